@@ -609,6 +609,31 @@ func run(tier, unit string, r *vlib.Rec) {
 					}
 				}
 			}
+			// (3) pool[i] against itself with its own sub-lines re-ordered (the re-ordering is made here, so the two
+			// trees are deep-equal by construction), alone and next to every other pool member
+			if lines := strings.Split(pool[i], "\n"); len(lines) >= 3 {
+				subs := lines[1:]
+				for _, pm := range perms3(len(subs)) {
+					q := []string{lines[0]}
+					for _, y := range pm {
+						q = append(q, subs[y])
+					}
+					inner := strings.Join(q, "\n")
+					for o := -1; o < len(pool); o++ {
+						lt, rt := mk(pool[i]), mk(inner)
+						if o >= 0 {
+							lt, rt = mk(pool[i], pool[o]), mk(pool[o], inner)
+						}
+						r.Eval()
+						r.Count("classes:inner-perm")
+						for _, seq := range [][]int{nil, {2}, {0, 2, 1, 3}} {
+							if s, w := judgePair(lt, rt, seq, "perm"); s != "" {
+								r.Fail(s, w, kase{L: lt, R: rt, Ops: seq, Sub: "perm"})
+							}
+						}
+					}
+				}
+			}
 			// (2) the single sibling pool[i] against every multiset of <=2, both directions
 			one := mk(pool[i])
 			for _, o := range small {
@@ -739,7 +764,7 @@ func main() {
 		Plan:     plan,
 		Run:      run,
 		Replay:   replay,
-		Required: func(string) []string { return []string{"pairs", "perm", "edit", "op-sequences"} },
+		Required: func(string) []string { return []string{"pairs", "perm", "edit", "op-sequences", "classes:perm", "classes:inner-perm", "classes:pair"} },
 		Deadline: func(tier string) time.Duration {
 			if tier == "thorough" {
 				return 25 * time.Minute
